@@ -111,7 +111,7 @@ GhostInit == [
   rbAllowed |-> "none", pingOk |-> FALSE, pingTm |-> 0,
   w |-> WaitInit, rbTid |-> 0, rbFired |-> FALSE, rbRearm |-> FALSE,
   ctlOut |-> {}, ctlSrc |-> <<>>, busy |-> FALSE, lastPolCheck |-> [d |-> "none", src |-> "", n |-> 0],
-  nPolCheck |-> 0, servedAt |-> 0, odPending |-> FALSE,
+  nPolCheck |-> 0, servedAt |-> 0, odPending |-> FALSE, odTaken |-> FALSE,
   snap |-> <<>>, persisting |-> FALSE, cut |-> FALSE, pingFx |-> "none", runNo |-> 0,
   twin |-> FALSE, ref |-> <<>>, cur |-> <<>>,
   fi |-> 0, fiUnk |-> FALSE, startTm |-> 0, wfrPending |-> FALSE, wfrDone |-> FALSE, finish |-> [s |-> 0, ns |-> 0],
@@ -691,7 +691,7 @@ StepPolCheck(g, e) ==
   IN V([g1 EXCEPT !.consent = Positive(a.d), !.busy = Positive(a.d), !.w = WaitInit,
                   !.nPolCheck = @ + 1, !.lastPolCheck = [d |-> a.d, src |-> e.src, n |-> g.nPolCheck + 1],
                   !.params = [src |-> src, dis |-> a.dis, same |-> a.same],
-                  !.optSrc = e.src,
+                  !.optSrc = e.src, !.odTaken = (e.src = "ondemand"),
                   !.fails = IF g.failsUnk THEN e.ps.fails ELSE @, !.failsUnk = FALSE], vs)
 
 ExpTiming(e) ==
@@ -755,16 +755,22 @@ StepRbNeeded(g, e) ==
                                ELSE g.tvSet = "")) IN
   V([g EXCEPT !.c.needed = IF e.ans THEN "yes" ELSE "no", !.finSet = FALSE, !.tvSet = ""], vs)
 
+\* Which requests has the machine taken?  A reply is logged only after the machine's next blocking point, so at the
+\* line of a reboot question an on-demand request that prompted it is still outstanding in the log; one that was sent
+\* while the machine was blocked elsewhere (delivering an event, say) may not have been taken yet.  Hence:
+\*   asked as on-demand  => the check's options were on-demand, or an on-demand request is known taken or outstanding;
+\*   asked as scheduled  => no on-demand request is KNOWN to have been taken in this check / wait.
+OutstandingOd(g) == \E i \in 1..Len(g.ctlSrc) : g.ctlSrc[i].req \in g.ctlOut /\ g.ctlSrc[i].src = "ondemand"
 StepRbAllowed(g, e) ==
   LET first == g.rbAllowed = "none" /\ g.rbTid = 0
       byTimer == g.rbFired
-      byDemand == g.odPending
+      byDemand == OutstandingOd(g)
       vs == Chk("C05", "reboot-question-outside-wait", g.inWfr)
          \cup Chk("C12", "reboot-question-unprompted", first \/ byTimer \/ byDemand)
          \cup Chk("C11", "reboot-question-source",
-                  e.src = "ondemand" <=> (g.optSrc = "ondemand"))
+                  IF e.src = "ondemand" THEN g.odTaken \/ OutstandingOd(g) ELSE ~g.odTaken)
   IN V([g EXCEPT !.rbAllowed = IF e.ans THEN "yes" ELSE "no",
-                 !.rbFired = FALSE, !.odPending = FALSE,
+                 !.rbFired = FALSE,
                  !.rbRearm = ~first /\ byTimer /\ ~e.ans], vs)
 
 StepReboot(g, e) ==
@@ -848,6 +854,7 @@ StepCtlReply(g, e) ==
                       Chk("C11", "gone-truthful", g.dead \/ r.run < g.runNo)
                  [] OTHER -> {<<"C11", "unknown-reply">>})
   IN V([g EXCEPT !.ctlOut = @ \ {e.req},
+                 !.odTaken = @ \/ (e.ans = "already" /\ r.src = "ondemand"),
                  !.servedAt = IF e.ans \in {"started", "throttled"} THEN pc.n ELSE @], vs)
 
 StepEnd(g, e) ==
